@@ -10,6 +10,7 @@ WEIGHTS = [1, 1, 2, 0.5, -1, 0, 0, 1 / 3, -0.5, 3]
 def gen_history(rng, nops):
     ops = [{"op": "pep", "out": "P"}]
     funcs, zero_funcs, points, exprs = [], set(), [], []
+    recipes = {}
     n = [0]
 
     def nm(b):
@@ -45,9 +46,24 @@ def gen_history(rng, nops):
             ops.append({"op": "plin", "out": x, "terms": terms})
             return x
         if len(points) >= 2:
+            if recipes and rng.random() < 0.5:
+                # the same point written with its terms in another order (equal decomposition, other insertion order)
+                y0 = rng.choice(sorted(recipes))
+                terms = list(recipes[y0])
+                rng.shuffle(terms)
+                if terms == recipes[y0]:
+                    terms = terms[::-1]
+                x = nm("r")
+                ops.append({"op": "plin", "out": x, "terms": terms})
+                return x
             a, b = rng.sample(points, 2)
             x = nm("y")
-            ops.append({"op": "plin", "out": x, "terms": [[a, 1.0], [b, float("%.2g" % rng.uniform(-1, 1))]]})
+            terms = [[a, 1.0], [b, float("%.2g" % rng.uniform(-1, 1))]]
+            if len(points) >= 3 and rng.random() < 0.4:
+                c = rng.choice(points)
+                terms.append([c, float("%.2g" % rng.uniform(-1, 1))])
+            ops.append({"op": "plin", "out": x, "terms": terms})
+            recipes[x] = [list(t) for t in terms]
             points.append(x)
             return x
         return rng.choice(points)
